@@ -237,6 +237,14 @@ def decorate(behs, rnd, params):
                 b = [{"ev": "setup", "api": True}] + list(b)
         behs2.append(b)
     behs = behs2
+    # ... and the balance figures are asked for under different minimum-confirmation settings (the refresh itself does
+    # not depend on the setting, the partition of the values into spendable / awaiting confirmation does)
+    if params.get("vary_minconf", True):
+        behs3 = []
+        for b in behs:
+            b = [dict(e, minconf=rnd.choice([0, 1, 1, 2, 4])) if e.get("ev") == "refresh" and "minconf" not in e else e for e in b]
+            behs3.append(b)
+        behs = behs3
     for b in behs:
         if not b or rnd.random() >= share:
             out.append(b)
